@@ -446,6 +446,8 @@ def run(chk):
 
     from lib import deabstract
     deabstract.run(chk)
+    from lib import sectionend
+    sectionend.run(chk)
     return chk.finish(
         level="other",
         explanation=("Capture/replay coverage rules over BaseBuilder in /repo's current source: each node-creating override is replayed by "
